@@ -151,8 +151,10 @@ macro_rules! with_grid_min {
     ($pt:literal, $min:expr, $f:ident, [$($g:ty),*], ($($a:expr),*)) => {
         match $min {
             4 => $f::<$pt, 4, $($g),*>($($a),*),
+            6 => $f::<$pt, 6, $($g),*>($($a),*),
             8 => $f::<$pt, 8, $($g),*>($($a),*),
             12 => $f::<$pt, 12, $($g),*>($($a),*),
+            13 => $f::<$pt, 13, $($g),*>($($a),*),
             20 => $f::<$pt, 20, $($g),*>($($a),*),
             _ => unreachable!("custom grid MIN"),
         }
